@@ -326,6 +326,14 @@ def device_params_valid(p: dict) -> tuple[bool, str]:
             return False, "channel_ids-clash"
     if any(c["cls"] == "Microwave" for c in chans) and not isinstance(p.get("interaction_coeff_xy"), float):
         return False, "interaction_coeff_xy"
+    for traps in p.get("pre_calibrated_layouts", []) or []:
+        if virtual:
+            return False, "pre_calibrated_layouts-in-virtual"
+        v, why, _ = classify_layout(traps, len(traps[0]), dict(p, min_layout_traps=mlt, max_layout_filling=f))
+        if v == REJECT:
+            return False, "pre_calibrated_layout:" + "+".join(why)
+        if v == GRAY:
+            return None, "pre_calibrated_layout~"
     return True, ""
 
 
